@@ -82,10 +82,14 @@ fn action(ctx: &mut Ctx, rig: &mut Rig<DefaultRiskManager<State>>, model: &mut M
     let rep = parse_audit(&audit);
     let delivered = delivered_reqs(&rig.drain());
     let exps = model.apply_event(&lay, cmd);
-    let want: Vec<Req> = exps.iter().map(|e| e.req.clone()).collect();
+    // the requested set is the reference set whatever happens to the delivery: requests addressed to an exchange whose link is gone are
+    // reported with their error, every other request of the command is still sent
+    let want: Vec<Req> = exps.iter().filter(|e| e.outcome == crate::eng::Outcome::Sent).map(|e| e.req.clone()).collect();
+    let want_failed: Vec<Req> = exps.iter().filter(|e| e.outcome == crate::eng::Outcome::Failed).map(|e| e.req.clone()).collect();
+    let got_failed: Vec<Req> = rep.errors.iter().map(|(r, _)| r.clone()).collect();
     let kind = if matches!(cmd, Ev::CmdClose(_)) { "cmd_close" } else { "cmd_cancel" };
-    if !rep.outputs.contains(&kind) || !same_multiset(&rep.sent, &want) || !rep.errors.is_empty() || rep.fatal != 0 {
-        ctx.fail(label, input, format!("{cmd:?}: outputs {:?}, requested {}, errors {}", rep.outputs, shorts(&rep.sent), rep.errors.len()), format!("exactly {}", shorts(&want)));
+    if !rep.outputs.contains(&kind) || !same_multiset(&rep.sent, &want) || !same_multiset(&got_failed, &want_failed) {
+        ctx.fail(label, input, format!("{cmd:?}: outputs {:?}, requested {}, reported with an error {}", rep.outputs, shorts(&rep.sent), shorts(&got_failed)), format!("requested exactly {}, reported with an error exactly {}", shorts(&want), shorts(&want_failed)));
     }
     for x in 0..N_EX {
         let want_x: Vec<Req> = want.iter().filter(|r| r.key().exchange.index() == x).cloned().collect();
@@ -105,11 +109,11 @@ fn action(ctx: &mut Ctx, rig: &mut Rig<DefaultRiskManager<State>>, model: &mut M
     true
 }
 
-fn one_case(ctx: &mut Ctx, lay: &std::sync::Arc<Layout>, links: [Link; N_EX], cfgs: &[Cfg], f_cancel: &Filt, f_close: &Filt, trading: TradingState, close_only: bool) {
+fn one_case(ctx: &mut Ctx, lay: &std::sync::Arc<Layout>, links: [Link; N_EX], dead_after_setup: Option<usize>, cfgs: &[Cfg], f_cancel: &Filt, f_close: &Filt, trading: TradingState, close_only: bool) {
     let mut rig = build(lay, links, trading, DefaultRiskManager::<State>::default());
     let mut model = Model::new(lay, links, trading == TradingState::Enabled, &[]);
     let setup = setup_events(lay, cfgs);
-    let input = || format!("links {links:?} (Missing = an exchange that is tracked for market data only: no execution link, no orders, no position), trading {trading:?}; setup events={setup:?}; then {}", if close_only { format!("ClosePositions({f_close:?})") } else { format!("CancelOrders({f_cancel:?}) twice") });
+    let input = || format!("links {links:?} (Missing = an exchange that is tracked for market data only: no execution link, no orders, no position){}, trading {trading:?}; setup events={setup:?}; then {}", if let Some(x) = dead_after_setup { format!("; after the set-up the execution link of exchange {x} is closed (receiver dropped)") } else { String::new() }, if close_only { format!("ClosePositions({f_close:?})") } else { format!("CancelOrders({f_cancel:?}) twice") });
     for ev in &setup {
         let real = ev.real(lay);
         if catch_unwind(AssertUnwindSafe(|| { let _ = rig.engine.process(real); })).is_err() { ctx.fail(L_SETUP, &input, format!("panic in set-up at {ev:?}"), "no panic".into()); return; }
@@ -123,6 +127,9 @@ fn one_case(ctx: &mut Ctx, lay: &std::sync::Arc<Layout>, links: [Link; N_EX], cf
         let ok = (c.orders & 1 == 0 || has("f") == Some(MState::Oif)) && (c.orders >> 1 & 1 == 0 || matches!(has("o"), Some(MState::Open(_)))) && (c.orders >> 2 & 1 == 0 || has("n") == Some(MState::Cif(None))) && (c.orders >> 3 & 1 == 0 || matches!(has("s"), Some(MState::Cif(Some(_)))))
             && (c.pos == 0) == (model.pos[i] == 0) && (c.price == 0) == model.price(i).is_none();
         if !ok { ctx.fail(L_SETUP, &input, format!("instrument {i}: reference state {:?} pos {} price {:?}", model.orders[i], model.pos[i], model.price(i)), format!("{c:?}")); return; }
+    }
+    if let Some(x) = dead_after_setup {
+        if links[x] == Link::Healthy { rig.rxs[x] = None; model.links[x] = Link::Closed; }     // the receiver of exchange x's execution link is dropped
     }
     if close_only {
         let close = Ev::CmdClose(f_close.clone());
@@ -139,7 +146,10 @@ fn one_case(ctx: &mut Ctx, lay: &std::sync::Arc<Layout>, links: [Link; N_EX], cf
             let rep = parse_audit(&audit);
             let delivered = delivered_reqs(&rig.drain());
             let again = model.apply_event(lay, &cancel);
-            if !rep.sent.is_empty() || !rep.errors.is_empty() || delivered.iter().any(|d| !d.is_empty()) || before != rig.engine.state || !again.is_empty() {
+            // (a request that could not be delivered the first time - dead link - left no in-flight mark and is, rightly, attempted and reported again)
+            let again_failed: Vec<Req> = again.iter().filter(|e| e.outcome == crate::eng::Outcome::Failed).map(|e| e.req.clone()).collect();
+            let got_failed: Vec<Req> = rep.errors.iter().map(|(r, _)| r.clone()).collect();
+            if !rep.sent.is_empty() || !same_multiset(&got_failed, &again_failed) || delivered.iter().any(|d| !d.is_empty()) || before != rig.engine.state || again.iter().any(|e| e.outcome == crate::eng::Outcome::Sent) {
                 ctx.fail(L_REPEAT, &input, format!("second CancelOrders({f_cancel:?}) requested {} delivered {:?}", shorts(&rep.sent), delivered.iter().map(|d| shorts(d)).collect::<Vec<_>>()), "nothing requested, state unchanged".into());
             }
         }
@@ -175,8 +185,11 @@ pub fn run(seed: u64, thorough: bool) -> u64 {
             links[0] = Link::Missing;
             for (i, c) in cfgs.iter_mut().enumerate() { if lay.inst_ex[i] == 0 { c.orders = 0; c.pos = 0; } }
         }
-        one_case(&mut ctx, &lay, links, &cfgs, &f_cancel, &f_close, trading, false);
-        one_case(&mut ctx, &lay, links, &cfgs, &f_cancel, &f_close, trading, true);
+        // every eighth round the link of one exchange that DOES hold orders / positions goes away just before the command: its requests are
+        // reported with their (fatal) error, the requests for the other exchanges are still made
+        let dead_after_setup = if k % 8 == 3 { Some((k / 8 % N_EX as u64) as usize) } else { None };
+        one_case(&mut ctx, &lay, links, dead_after_setup, &cfgs, &f_cancel, &f_close, trading, false);
+        one_case(&mut ctx, &lay, links, dead_after_setup, &cfgs, &f_cancel, &f_close, trading, true);
         n += 1;
     }
     n
